@@ -201,11 +201,13 @@ M_POOL = {
     'sa': lambda r: {'k': 'arr', 'v': [{'k': 'str', 'v': r.choice(['a', ' b&<>', ''])} if r.random() < 0.85
                                        else {'k': 'none'} for _ in range(r.choice([0, 1, 2]))]},
     'ra': lambda r: {'k': 'arr', 'v': [{'k': 'ref', 'v': 'p%d' % k, 'ns': 'root/a'} for k in range(r.choice([1, 2]))]},
+    'ea': lambda r: {'k': 'arr', 'v': [{'k': 'einst', 'v': r.choice(['x', 'in & <out>', ''])}
+                                        for _ in range(r.choice([1, 1, 2, 3]))]},
 }
 M_TYPES = {'s': ('string', False, None), 'a': ('uint8', True, None), 'r': ('reference', False, None),
            'e': ('string', False, 'instance'), 'b': ('boolean', False, None), 'd': ('datetime', False, None),
            'x': ('real64', False, None), 'i': ('sint64', False, None), 'c': ('char16', False, None),
-           'sa': ('string', True, None), 'ra': ('reference', True, None)}
+           'sa': ('string', True, None), 'ra': ('reference', True, None), 'ea': ('string', True, 'instance')}
 
 
 RESULT_METHODS = ['SOut', 'SOut', 'SOut', 'sout', 'RBool', 'RBool', 'RStr', 'RDt', 'RReal', 'RReal32', 'RInt', 'RU8',
